@@ -86,6 +86,7 @@ const char* const SIG_F6 = "C14:frame-definition-file-keyword:num_events_to_stor
 const char* const SIG_F7 = "C14:max-segment-keyword:output-object-with-more-segments";
 const char* const SIG_E1 = "C14:object-reuse:time-frames-then-num_events_to_store";
 const char* const SIG_E2 = "C14:object-reuse:template-with-more-segments";
+const char* const SIG_H1 = "C14:combined-time-and-event-record:first-record-at-or-beyond-a-frame-boundary";
 void
 excluded(const char* sig)
 {
@@ -144,6 +145,10 @@ struct Rec
   int kind; // 0 time mark, 1 prompt, 2 delayed
   unsigned long ms;
   int d1, r1, d2, r2, tof;
+  //! audit H: the record is BOTH a timing and a coincidence record (as every record of ROOT list-mode data is, CListRecordROOT.h:
+  //! "ROOT data are time and event at the same time"; LmToProjData.cxx: "a record can never be both timing and coincidence event
+  //! and there might be a scanner around that has them both combined"): is_time() and is_event() are true, ms is its own time
+  bool with_time = false;
 };
 
 inline long
@@ -161,9 +166,12 @@ struct Decoder
   long tick = 1; // ms per unit of the time increments (Case key "tick"; 25 or 125 put marks on the boundaries of frames read from files)
   unsigned long now = 0;
   std::vector<Rec> out;
-  void time(long dt)
+  void time(long dt, bool same_time = false)
   {
-    now += static_cast<unsigned long>(std::max<long>(1, std::min<long>(dt, 1000000)) * tick); // marks strictly increase (ms)
+    // marks increase (ms).  audit H: a third tuple element 1 repeats the time of the previous mark (two time marks with the same
+    // time, or a first mark at time 0: nothing in STIR asks for strictly increasing marks, equal neighbours are a legal boundary)
+    if (!same_time)
+      now += static_cast<unsigned long>(std::max<long>(1, std::min<long>(dt, 1000000)) * tick);
     out.push_back(Rec{ 0, now, 0, 0, 0, 0, 0 });
   }
   void event(long kind, long a, long b, long c, long d, long e)
@@ -200,7 +208,7 @@ struct Decoder
     const long k = t[0].get<long>();
     auto arg = [&](std::size_t i) { return i < t.size() ? t[i].get<long>() : 0L; };
     if (k == 0)
-      time(arg(1));
+      time(arg(1), arg(2) == 1);
     else
       event(k, arg(1), arg(2), arg(3), arg(4), arg(5));
   }
@@ -249,6 +257,57 @@ decode_stream(const json& c, const Scanner& sc, int opp_half = 0)
   return d.out;
 }
 
+//! audit H: the same stream as it comes from a source whose coincidence records carry their own time (is_time() && is_event(),
+//! the record type of ROOT list-mode data): every event record reports the time of the most recent mark, and a time mark that is
+//! directly followed by an event is not a record of its own (the event is the first record with the new time).  The event list of
+//! the oracle is unchanged: an event belongs to [s,e) iff its time - the most recent time mark - is in [s,e).
+//! Finding C14-H1 (known/C14/combined_record_on_frame_boundary.json): LmToProjData::process_data skips to the start of a frame with
+//! "while (current_time < start_time && get_next_record)" and ends a frame with "if (current_time >= end_time) break", both of which
+//! consume the record that carries the first time at or beyond the boundary, so that record's EVENT is never histogrammed although
+//! it lies inside the (next) frame.  Narrow exclusion: the time mark that is the first one at or beyond a frame boundary of the
+//! case stays a separate time record (unless VERIF_NO_EXCLUDE=1 / VERIF_C14_LIFT=H1).
+std::vector<Rec>
+combined_stream(const std::vector<Rec>& recs, const std::vector<long>& boundaries_ms, long& n_merged, long& n_merged_on_boundary)
+{
+  std::vector<Rec> out;
+  unsigned long now = 0;
+  n_merged = n_merged_on_boundary = 0;
+  for (std::size_t i = 0; i < recs.size(); ++i)
+    {
+      const Rec& r = recs[i];
+      if (r.kind == 0)
+        {
+          bool crosses = false;
+          for (long b : boundaries_ms)
+            if (long(now) < b && long(r.ms) >= b)
+              crosses = true;
+          now = r.ms;
+          const bool event_follows = i + 1 < recs.size() && recs[i + 1].kind != 0;
+          if (event_follows && crosses && exclusion_on("H1"))
+            {
+              excluded(SIG_H1);
+              out.push_back(r);
+            }
+          else if (event_follows)
+            {
+              ++n_merged; // the following event carries this time
+              if (crosses)
+                ++n_merged_on_boundary;
+            }
+          else
+            out.push_back(r);
+        }
+      else
+        {
+          Rec e = r;
+          e.with_time = true;
+          e.ms = now;
+          out.push_back(e);
+        }
+    }
+  return out;
+}
+
 // ---- the synthetic list-mode source -------------------------------------------------------------------
 class SynthEvent : public CListEventScannerWithDiscreteDetectors<ProjDataInfoCylindricalNoArcCorr>
 {
@@ -292,7 +351,7 @@ public:
   explicit SynthRecord(const shared_ptr<const ProjDataInfo>& pdi)
       : ev(pdi)
   {}
-  bool is_time() const override { return kind == 0; }
+  bool is_time() const override { return kind == 0 || has_time; }
   bool is_event() const override { return kind != 0; }
   ListEvent& event() override { return ev; }
   const ListEvent& event() const override { return ev; }
@@ -301,10 +360,13 @@ public:
   void load(const Rec& r)
   {
     kind = r.kind;
+    has_time = r.kind != 0 && r.with_time;
     if (r.kind == 0)
       tm.set_time_in_millisecs(r.ms);
     else
       {
+        if (r.with_time)
+          tm.set_time_in_millisecs(r.ms);
         ev.set_detection_position(DetectionPositionPair<>(DetectionPosition<>(r.d1, r.r1, 0), DetectionPosition<>(r.d2, r.r2, 0), r.tof));
         ev.set_prompt(r.kind == 1);
       }
@@ -312,6 +374,7 @@ public:
 
 private:
   int kind = 1;
+  bool has_time = false;
   SynthEvent ev;
   SynthTime tm;
 };
@@ -544,6 +607,10 @@ struct RunCfg
   //! frames from a file: 0 = keyword "frame_definition file" (the only way that member can be set), 1 = TimeFrameDefinitions(file)
   //! constructed by the caller and handed to set_time_frame_definitions
   int frame_file_route = 0;
+  //! audit H: the in-memory output object is NOT freshly constructed: it holds stale values in every bin before process_data()
+  //! (set_output_projdata_sptr: "set projdata to be filled with output"; "will only store data from the last defined time frame":
+  //! what the object held before is replaced, the histogram holds the counts of the events "and nothing else")
+  bool prefill = false;
 };
 
 TimeFrameDefinitions
@@ -667,6 +734,13 @@ run_lm_to_projdata(const World& w,
           excluded(SIG_F7);
         }
       out.reset(new ProjDataInMemory(lm->get_exam_info_sptr(), full ? w.tmpl : want));
+      // stale contents (not with the segment keyword and a full-size object: the segments that are not processed are documented
+      // to be left alone, the comparison below expects 0 there)
+      if (cfg.prefill && o.max_seg < 0)
+        {
+          out->fill(7.F);
+          stats().cls("in-memory output object with stale contents before process_data()");
+        }
       conv.set_output_projdata_sptr(out);
     }
   if (conv.set_up() != Succeeded::yes)
@@ -787,6 +861,7 @@ run_cfgs(const json& c, bool single_tof_bin_template, bool axial_range_not_from_
       x.tof_via_parser = r[3].get<long>() != 0;
       x.all_via_parser = r.size() > 4 && r[4].get<long>() != 0;
       x.frame_file_route = (r.size() > 5 && r[5].get<long>() != 0) ? 1 : 0;
+      x.prefill = r.size() > 6 && r[6].get<long>() != 0;
       if (x.to_file && axial_range_not_from_zero)
         x.to_file = false; // the Interfile header stores only the NUMBER of axial positions: such a template cannot be a file
       if (x.to_file && single_tof_bin_template && exclusion_on("F5"))
@@ -922,6 +997,22 @@ check_likelihood(const json& c, const World& w, const Selection& sel, const std:
     {
       image = vg::make_image(L["image"], *w.tmpl, 7);
       vg::fill_random(*image, L["dseed"].get<uint64_t>(), 0.5, 2.);
+      {
+        // audit H: the current estimate may hold exact zeros (1: in about a third of the voxels; 2: everywhere, only together with
+        // the additive term so that every denominator P x + a stays >= 0.5) - the gradient sum_b P_b^T y_b/(P_b x + a_b) is defined
+        // there as anywhere else; cases whose quotients come near the documented 1e4 thresholds are screened out below as before
+        int xzero = int(L.value("xzero", 0L));
+        if (xzero == 2 && !use_add)
+          xzero = 1;
+        if (xzero > 0)
+          {
+            SplitMix gz(L["dseed"].get<uint64_t>() ^ 0x2e20ULL);
+            for (auto it = image->begin_all(); it != image->end_all(); ++it)
+              if (xzero == 2 || gz.range(0, 2) == 0)
+                *it = 0.F;
+            stats().cls(xzero == 2 ? "likelihood: current estimate all zero (with additive term)" : "likelihood: current estimate with exact zeros");
+          }
+      }
       vp::MatrixOpts o;
       o.num_tangential_LORs = L["lors"].get<int>();
       P = vp::ExplicitP::build(w.tmpl, image, o);
@@ -929,6 +1020,14 @@ check_likelihood(const json& c, const World& w, const Selection& sel, const std:
       SplitMix g(L["dseed"].get<uint64_t>() ^ 0x5151ULL);
       for (auto& v : addv)
         v = float(g.real(0.5, 1.5));
+      if (use_add && L.value("azero", 0L) > 0 && L.value("xzero", 0L) == 0)
+        { // audit H: additive term with exact zeros in a third of the bins (legal: P x > 0 for the strictly positive estimate)
+          SplitMix ga(L["dseed"].get<uint64_t>() ^ 0xa2e20ULL);
+          for (auto& v : addv)
+            if (ga.range(0, 2) == 0)
+              v = 0.;
+          stats().cls("likelihood: additive term with exact zeros");
+        }
       w.index.vec_to_projdata(*add, addv);
       for (auto it = mult->begin_all(); it != mult->end_all(); ++it)
         *it = float(g.real(0.5, 2.));
@@ -1985,7 +2084,26 @@ check(const json& c)
     lm_pdi.reset(ProjDataInfo::construct_proj_data_info(w.sc, 1, w.sc->get_num_rings() - 1, w.sc->get_num_detectors_per_ring() / 2,
                                                         w.sc->get_max_num_non_arccorrected_bins(), false, w.sc->is_tof_ready() ? 1 : 0)
                      .release());
-  shared_ptr<SyntheticCListModeData> lm(new SyntheticCListModeData(w.recs, lm_pdi, w.has_delayeds));
+  // audit H: a fifth of the cases read the stream from a source whose event records carry their own time (see combined_stream)
+  std::vector<Rec> source_recs = w.recs;
+  if (c.value("combined", false))
+    {
+      std::vector<long> bnd;
+      if (mode == 0 || mode == 3)
+        for (auto& fr : frames)
+          {
+            bnd.push_back(fr.first);
+            bnd.push_back(fr.second);
+          }
+      long n_merged = 0, n_on_boundary = 0;
+      source_recs = combined_stream(w.recs, bnd, n_merged, n_on_boundary);
+      stats().cls("source with combined time+event records");
+      if (n_merged)
+        stats().cls("source with combined records: some time mark is carried by the following event");
+      if (n_on_boundary)
+        stats().cls("source with combined records: the first record at or beyond a frame boundary is a combined one (finding H1 lifted)");
+    }
+  shared_ptr<SyntheticCListModeData> lm(new SyntheticCListModeData(source_recs, lm_pdi, w.has_delayeds));
 
   long n_events = 0, n_marks = 0, n_delayeds = 0;
   for (const Rec& r : w.recs)
@@ -2000,6 +2118,21 @@ check(const json& c)
   stats().cls(store_prompts ? (store_delayeds ? "prompts - delayeds" : "prompts only") : "delayeds only");
   if (!w.recs.empty() && w.recs[0].kind != 0)
     stats().cls("events before the first time mark");
+  {
+    long prev = -1;
+    bool equal_marks = false, mark_at_zero = false;
+    for (const Rec& r : w.recs)
+      if (r.kind == 0)
+        {
+          equal_marks = equal_marks || long(r.ms) == prev;
+          mark_at_zero = mark_at_zero || r.ms == 0;
+          prev = long(r.ms);
+        }
+    if (equal_marks)
+      stats().cls("two time marks with the same time");
+    if (mark_at_zero)
+      stats().cls("time mark at time 0");
+  }
   int max_batches = 1;
   for (const RunCfg& r : cfgs)
     max_batches = std::max(max_batches, num_batches(w, r));
@@ -2250,7 +2383,9 @@ check(const json& c)
       sel.cut = mode == 1 ? std::max(1L, c["cut"].get<long>()) : 0;
       std::vector<std::pair<long, long>> fr;
       if (mode == 1 && c.value("cut_frame_end", 0L) > 0)
-        fr.push_back(std::make_pair(0L, std::max(20L, c["cut_frame_end"].get<long>())));
+        // "cut_frame_start" is never generated (audit H, open gap: with a first frame that starts later than 0 the code skips to that
+        // start although LmToProjData.h says frame definitions are ignored for num_events_to_store > 0); the key only serves probes
+        fr.push_back(std::make_pair(std::max(0L, c.value("cut_frame_start", 0L)), std::max(20L, c["cut_frame_end"].get<long>())));
       const Expect ex = expected(w, sel, store_prompts, store_delayeds);
       if (mode == 1)
         stats().cls(ex.cut_reached ? "cut-off reached before the end of the stream" : "cut-off beyond the end of the stream");
@@ -2333,6 +2468,7 @@ gen(Src& s, int size)
     c["ax_trim"] = json::array({ int(s.range(0, 8)), int(s.range(1, 2)), 0 });
   c["has_delayeds"] = s.chance(5, 6);
   c["lm_uncompressed"] = s.coin();
+  c["combined"] = s.chance(1, 5); // audit H: source whose event records carry their own time
   // ---- what is histogrammed: 0 frames through the setter, 3 frames from a file, 1 num_events_to_store, 2 whole stream
   const int m = int(s.range(0, 19));
   const int mode = m < 9 ? 0 : (m < 14 ? 3 : (m < 18 ? 1 : 2));
@@ -2353,7 +2489,12 @@ gen(Src& s, int size)
     {
       const long u = s.range(0, 99);
       if (u < mark_pct || (i == 0 && start_with_mark))
-        stream.push_back(json::array({ 0, s.chance(1, 5) ? s.range(1, maxdt * 4) : s.small(1, maxdt) }));
+        {
+          if (s.chance(1, 20)) // audit H: the same time as the previous mark (as first mark: a mark at time 0)
+            stream.push_back(json::array({ 0, 1, 1 }));
+          else
+            stream.push_back(json::array({ 0, s.chance(1, 5) ? s.range(1, maxdt * 4) : s.small(1, maxdt) }));
+        }
       else if (!stream.empty() && s.chance(1, 5))
         { // repeat an earlier event, possibly with the other kind
           const json& q = stream[std::size_t(s.range(0, long(stream.size()) - 1))];
@@ -2487,7 +2628,8 @@ gen(Src& s, int size)
       long b = s.chance(1, 4) ? -1 : s.range(1, ntofs + 1);
       if (nsegs > 1 && ntofs == 1 && k == 0 && a == -1)
         a = s.range(1, nsegs - 1);
-      runs.push_back(json::array({ a, b, s.chance(1, mode == 3 ? 2 : 5) ? 1 : 0, s.chance(1, 4) ? 1 : 0, s.chance(1, 3) ? 1 : 0, s.chance(1, 3) ? 1 : 0 }));
+      runs.push_back(json::array({ a, b, s.chance(1, mode == 3 ? 2 : 5) ? 1 : 0, s.chance(1, 4) ? 1 : 0, s.chance(1, 3) ? 1 : 0, s.chance(1, 3) ? 1 : 0,
+                                   s.chance(1, 3) ? 1 : 0 }));
     }
   c["runs"] = runs;
   {
@@ -2516,6 +2658,9 @@ gen(Src& s, int size)
       L["lors"] = int(s.range(1, 2));
       L["lmcache"] = s.coin() ? 0L : s.range(1, std::max(2L, n_events));
       L["frame"] = int(s.range(0, 7));
+      const int zz = int(s.range(0, 9));
+      L["xzero"] = zz < 2 ? 1 : (zz < 4 ? 2 : 0);
+      L["azero"] = (zz == 4 || zz == 5) ? 1 : 0;
     }
   c["lik"] = L;
 
@@ -2660,6 +2805,7 @@ fixed_cases(int)
   base["pdi"] = pdi;
   base.erase("ax_trim");
   base.erase("bulk");
+  base["combined"] = false;
   base["tick"] = 1;
   base["p"] = json{ { "max_seg", -1 }, { "cut", 0 } };
   base["has_delayeds"] = true;
@@ -2679,6 +2825,15 @@ fixed_cases(int)
     v.push_back(c);
     c["bounds"] = std::vector<long>{ 50, 200, 201 };
     v.push_back(c);
+    // audit H: the same stream from a source with combined time+event records (the marks on the boundaries stay separate
+    // records while finding C14-H1 is excluded), with stale contents in the output objects
+    c["combined"] = true;
+    c["bounds"] = std::vector<long>{ 0, 75, 100, 250 };
+    c["runs"] = json::array({ json::array({ -1, -1, 0, 0, 0, 0, 1 }), json::array({ 1, -1, 0, 0, 0, 0, 1 }), json::array({ 2, 1, 0, 1 }), json::array({ 7, -1, 1, 0 }) });
+    v.push_back(c);
+    c["combined"] = false;
+    c["runs"] = base["runs"];
+    c["bounds"] = std::vector<long>{ 50, 200, 201 };
     c["mode"] = 1;
     c["cut"] = 3;
     c["cut_frame_end"] = 0;
